@@ -7,6 +7,7 @@ import (
 	"go/ast"
 	"go/token"
 	"go/types"
+	"sort"
 	"strings"
 
 	"golang.org/x/tools/go/types/typeutil"
@@ -17,7 +18,7 @@ func init() {
 		ID:          "C04",
 		Level:       "other",
 		Run:         runC04,
-		Explanation: "Decides that the mechanisms of the hazard discipline are wired as it requires, on every variant: R04.1 the hazard classifiers equal the reference (RAW = reads∩pending writes, WAW = writes∩pending writes, WAR = writes∩pending reads, zero register skipped); R04.2 the control unit's dispatch predicates equal the reference (conflict with held-back instructions; forwarding only for exactly one RAW hazard with a producer dispatched in the previous cycle; renaming only for exactly one non-RAW hazard) and every dispatch is guarded by 'no hazard', the forwarding predicate or the renaming predicate; R04.3 the scoreboard is raised at dispatch and released after the architectural write, in the same block; R04.4 forwarding wiring (one channel of capacity 1 shared by producer and consumer, the forwarded register is the hazard's, the producer sends its result exactly when it has a forwarder, the consumer receives before it runs); R04.5 register read precedence; R04.6 declared read/write sets are exact; R04.7 the scoreboard touches only the scoreboard; R04.8 where renaming can put two writers of a register in flight, the forwarding decision accounts for it; R04.9 all register-reading calls of one variant pass the same sequence tag. Does not decide that the discipline is sufficient under every dispatch interleaving (a schedule/value question).",
+		Explanation: "Decides that the mechanisms of the hazard discipline are wired as it requires, on every variant: R04.1 the hazard classifiers equal the reference (RAW = reads∩pending writes, WAW = writes∩pending writes, WAR = writes∩pending reads, zero register skipped); R04.2 the control unit's dispatch predicates equal the reference (conflict with held-back instructions; forwarding only for exactly one RAW hazard with a producer dispatched in the previous cycle; renaming only for exactly one non-RAW hazard) and every dispatch is guarded by 'no hazard', the forwarding predicate or the renaming predicate; R04.3 the scoreboard is raised at dispatch and released after the architectural write, in the same block; R04.4 forwarding wiring (one channel of capacity 1 shared by producer and consumer, the forwarded register is the hazard's, the producer sends its result exactly when it has a forwarder, the consumer receives before it runs); R04.5 register read precedence; R04.6 declared read/write sets are exact; R04.7 the scoreboard touches only the scoreboard; R04.8 where renaming can put two writers of a register in flight, the forwarding decision accounts for it; R04.9 all register-reading calls of one variant pass the same sequence tag; R04.10 wiring a forward writes only the producer's Forwarder, so an instruction that is the consumer of one forward and the producer of the next keeps the register it is waiting for. Does not decide that the discipline is sufficient under every dispatch interleaving (a schedule/value question).",
 		Assumptions: []string{"dispatch interleavings beyond the structural rules are not explored"},
 		Trusted:     []string{"go/types", "term engine", "reference models spec/risc_state.go.txt, spec/cu.go.txt"},
 	})
@@ -69,6 +70,7 @@ func runC04(r *Run) {
 	w := r.W
 	r.floor("R04.1", 4)
 	r.floor("R04.2", 22)
+	r.floor("R04.10", 6)
 	r.floor("R04.3", 9)
 	r.floor("R04.4", 12)
 	r.floor("R04.5", 1)
@@ -315,8 +317,18 @@ func ruleForwardWiring(r *Run, v *variant, f *fieldRole, fd *ast.FuncDecl) {
 			}
 		}
 		good := chName != "" && capOne && set[prev+".Forwarder"] == chName && set[cons+".Receiver"] == chName &&
-			set[prev+".ForwardRegister"] == reg && set[cons+".ForwardRegister"] == reg && cons != prev
-		r.check(good, "R04.4", fmt.Sprintf("%s.(%s).%s:wiring", v.rel, f.unitT.Obj().Name(), fd.Name.Name), is.Pos(), "one channel of capacity 1 (%v) is the producer's Forwarder and the consumer's Receiver, and both sides name the hazard's register: %v", capOne, set)
+			set[cons+".ForwardRegister"] == reg && cons != prev
+		r.check(good, "R04.4", fmt.Sprintf("%s.(%s).%s:wiring", v.rel, f.unitT.Obj().Name(), fd.Name.Name), is.Pos(), "one channel of capacity 1 (%v) is the producer's Forwarder and the consumer's Receiver, and the consumer names the hazard's register: %v", capOne, set)
+		// the producer may itself be a consumer still waiting for ITS operand (a chain a -> b -> c on
+		// different registers): wiring b as the producer of c must not overwrite what b needs as a consumer
+		var clobbered []string
+		for k := range set {
+			if strings.HasPrefix(k, prev+".") && k != prev+".Forwarder" {
+				clobbered = append(clobbered, k)
+			}
+		}
+		sort.Strings(clobbered)
+		r.check(len(clobbered) == 0, "R04.10", fmt.Sprintf("%s.(%s).%s:producer-untouched", v.rel, f.unitT.Obj().Name(), fd.Name.Name), is.Pos(), "wiring a forward writes only the Forwarder of the producer: its consumer-side fields (the register it is waiting to receive) stay intact when it is chained as the producer of the next instruction (written here: %v)", clobbered)
 		return true
 	})
 }
